@@ -571,3 +571,9 @@ func init() {
 	verifQueryFamilies = append(verifQueryFamilies, func() []string { return []string{`lead = "x"`, `lead = "xy"`} })
 	ast.VerifTemplates = append(ast.VerifTemplates, `lead = "__VERIF_LIT__"`)
 }
+
+// the cascade-retry scenario also belongs to C04 (the retried delete must
+// delete exactly the referrers), and a target id spliced into the delete
+// filter is a string literal in the sense of C11
+func VerifC04_CascadeRetriedOnSameContext() { VerifC06_CascadeRetriedOnSameContext() }
+func VerifC11_IdSplicedIntoFilterLiteral()  { verifC04Step(vStoreCfg{fk: vFkConstraintCascade}, true) }
